@@ -6,9 +6,11 @@ import re
 class VersionParser:
     """Evaluate a logical expression, returning a Bool.  The grammar is:
 
-        expr : term
-               expr || term          (or  is also accepted)
-               expr && term          (and is also accepted)
+        expr : andExpr
+               expr || andExpr       (or  is also accepted)
+
+        andExpr : term
+               andExpr && term       (and is also accepted)
 
         term : prim == prim
                prim =~ regexp
@@ -109,7 +111,7 @@ names are declared using VersionParser.define()
         if isinstance(self._tokens, bool):
             return self._tokens
 
-        val = self._expr()              # n.b. may not have consumed all tokens as || and && short circuit
+        val = self._expr()
 
         if val == "EOF":
             return False
@@ -117,15 +119,27 @@ names are declared using VersionParser.define()
             return val
 
     def _expr(self):
-        lhs = self._term()
+        lhs = self._andExpr()
 
         while True:
             op = self._next()
 
             if op == "||" or op == "or":
-                lhs = lhs or self._term()
-            elif op == "&&" or op == "and":
-                lhs = lhs and self._term()
+                rhs = self._andExpr()   # always consume the operand's tokens
+                lhs = lhs or rhs
+            else:
+                self._push(op)
+                return lhs
+
+    def _andExpr(self):
+        lhs = self._term()
+
+        while True:
+            op = self._next()
+
+            if op == "&&" or op == "and":
+                rhs = self._term()      # always consume the operand's tokens
+                lhs = lhs and rhs
             else:
                 self._push(op)
                 return lhs
